@@ -51,6 +51,15 @@ BINOPS = ['+', '-', '*', '/', '%', '==', '!=', '<', '<=', '>', '>=', 'and', 'or'
 INCOPS = ['+=', '-=', '*=', '/=', '%=']
 
 
+PARAMS = ('int qi, const int qci, byte qy, bool qb, string qs, const string qcs, int[] qai, const int[] qcai, byte[] qay, const byte[] qcay, bool[] qab, const bool[] qcab, '
+          'string[] qas, const string[] qcas')
+PVARS = ['qi', 'qci', 'qy', 'qb', 'qs', 'qcs', 'qai', 'qcai', 'qay', 'qcay', 'qab', 'qcab', 'qas', 'qcas']
+
+
+def wrapp(stmt):
+    return GLOBALS + FUNCS + f'empty h({PARAMS}) {{ {LOCALS} {stmt} }}\nempty @t() {{ }}\n'
+
+
 def wrap(stmt, ret='empty', flavour='@'):
     name = f'{flavour}t' if flavour else 't'
     return GLOBALS + FUNCS + f'{ret} {name}() {{ {LOCALS} {stmt} }}\n'
@@ -124,6 +133,21 @@ def contexts(tier='thorough'):
             g.append((f'({a}) is {t}', wrap(f'vb = (({a}) is {t}) is bool;')))
         g.append((f'expression statement {a}', wrap(f'{a};')))
     groups.append(('unary / condition / index / cast target', g))
+    # the same assignment rules when the target is a PARAMETER (of every type), an element of a parameter, a loop variable or a global
+    g = []
+    patoms = (ATOMS if tier == 'thorough' else ATOMS[::2]) + PVARS
+    for v in PVARS + ['qai[0]', 'qcai[0]', 'qay[0]', 'qcay[0]', 'qs[0]', 'qas[0]', 'qcas[0]', 'qab[0]', 'qcab[0]']:
+        for a in patoms:
+            g.append((f'parameter {v} = {a}', wrapp(f'{v} = {a};')))
+    for v in ['qi', 'qci', 'qy', 'qs', 'qai', 'qcai', 'qai[0]', 'qcai[0]', 'qay[0]']:
+        for op in INCOPS[:2]:
+            for a in patoms[::3]:
+                g.append((f'parameter {v} {op} {a}', wrapp(f'{v} {op} {a};')))
+    for a in patoms:
+        g.append((f'loop variable = {a}', wrapp(f'for (int k = 0; k < 2; k += 1) {{ k = {a}; }}')))
+        g.append((f'const loop variable = {a}', wrapp(f'for (const int k = 0; k < 2;) {{ k = {a}; }}')))
+        g.append((f'array loop variable = {a}', wrapp(f'for (int[] k = [1]; qb;) {{ k = {a}; }}')))
+    groups.append(('parameter / loop-variable assignment', g))
     return groups
 
 
